@@ -4,6 +4,7 @@ Property theorems only; lemmas live in Neutrino/Lemmas.
 -/
 import Neutrino.Spec.Dispatcher
 import Neutrino.Lemmas.Dispatcher
+import Neutrino.Lemmas.DispatcherJobs
 import Neutrino.Gen.Dispatcher
 namespace Neutrino.Disp
 
@@ -107,6 +108,35 @@ theorem C12_reissue (s : State) (p : Nat) (e : Err) (w : Worker) (job : Job)
   rw [hs] at hl ⊢
   exact reissue_core s p e w job hw ha he1 he2 hl
 
+/-- **Success means all answered** — for every event list: if batch `b`'s
+result channel received the nil verdict, then every request index of `b`
+(`sub.first … sub.first+sub.count-1` of its submission record) is in `okd`,
+i.e. a worker reported OK for the job carrying that index.  Proved from the
+accounting invariant `KW`: in every reachable state a live batch's `rem` is the
+number of its jobs in queue ∪ held by workers ∪ lost with an overwritten worker,
+job indices are pairwise distinct and mapped to their batch by `queries`, and
+every request index of a live batch is finished OK or carried by such a job. -/
+theorem C12_success_all (es : List Ev) (b : Nat)
+    (hv : (b, Verdict.res .ok) ∈ (run init es).verdicts) :
+    ∀ sub ∈ (run init es).subs, sub.id = b →
+      ∀ i, sub.first ≤ i → i < sub.first + sub.count → i ∈ (run init es).okd := by
+  intro sub hs hid i h1 h2
+  have k := (KW_run init es KW_init invA_init).k
+  exact k.done sub hs (hid ▸ hv) i h1 h2
+
+/-- every submitted batch has a submission record: `C12_success_all` is not vacuous in `sub` -/
+theorem C12_subs_recorded (s : State) (n : Nat) (nrm : Bool) (mr : Nat) (pr hn : Bool)
+    (h : offering s = false ∨ s.quit = true) :
+    (⟨s.nextBatch, s.nextQuery, n⟩ : Sub) ∈ (step s (.newBatch n nrm mr pr hn)).1.subs := by
+  unfold step
+  by_cases hq : s.quit = true
+  · simp only [hq, ↓reduceIte, stepLate, List.mem_append, List.mem_singleton, or_true]
+  · have hq' : s.quit = false := by cases hh : s.quit <;> simp_all
+    cases h with
+    | inl h => simp only [hq', h, Bool.false_eq_true, ↓reduceIte, stepNewBatch, List.mem_append,
+        List.mem_singleton, or_true]
+    | inr h => exact absurd h hq
+
 /-- **Success only through the last outstanding request finishing OK**
 (the part of `C12_success_all` that is proved for every state and event): a nil
 verdict for batch `b` is written only by the step in which a worker reports OK
@@ -114,11 +144,9 @@ for the job it holds, that job is mapped to `b`, `b` is live and its remaining
 counter is exactly 1; the job is recorded as finished OK.  No timeout, wake,
 failure, cancellation, shutdown or late submission ever produces a nil verdict.
 
-NOT proved here (full `C12_success_all`: "a nil verdict implies EVERY request
-index of the batch is in `okd`"): that needs the accounting invariant
-`rem = number of the batch's jobs in queue ∪ active ∪ lost` with pairwise
-distinct job indices.  On every run the oracle clause `nil-without-all-ok`
-checks exactly that statement on the real dispatcher's observations. -/
+This is the single-step companion of `C12_success_all` (which gives "every
+request index is in `okd`" for whole histories); the oracle clause
+`nil-without-all-ok` checks the same statement on the real dispatcher. -/
 theorem C12_success_all_partial (s : State) (e : Ev) (b : Nat)
     (h : Out.verdict b (.res .ok) ∈ (step s e).2) :
     ∃ p w job bp, e = .result p .ok ∧ s.quit = false ∧ findW s.workers p = some w ∧ w.active = some job ∧
@@ -149,6 +177,9 @@ example :
 /-- `C12_success_all_partial`: the step that writes batch 0's nil verdict, both requests finished -/
 example : Out.verdict 0 (.res .ok) ∈ (step (run init (demo.take 9)) (.result 1 .ok)).2 ∧
     (run init (demo.take 10)).okd = [1, 0] := by decide
+/-- `C12_success_all` on the demo history: batch 0 has the nil verdict, its record is ⟨0,0,2⟩, both indices are in `okd` -/
+example : (0, Verdict.res .ok) ∈ (run init demo).verdicts ∧ (⟨0, 0, 2⟩ : Sub) ∈ (run init demo).subs ∧
+    (run init demo).okd = [1, 0] := by decide
 /-- `C12_rank`: with two free workers of different score only the better one may accept -/
 example :
     let s := run init [.peer 1, .peer 2, .newBatch 1 false 2 false false, .accept 1, .result 1 .other]
